@@ -34,6 +34,20 @@ func VerifC16_Loads() {
 	}
 	zzverif.Cover("13.x-source")
 	from := zzverif.Choice("source-version", 6)
+	def := verifLoadsDefinition(from)
+	f, err := ReadFlow([]byte(def), nil)
+	zzverif.Assert(err == nil, "a migrated 13.x definition does not load at the current version")
+	zzverif.Assert(f.UUID() == "8f6f4e8e-5d0a-4a9e-9c3a-3c1c6f1a2b3c" && len(f.Nodes()) == 2, "the loaded flow lost its UUID or a node")
+	n0 := f.Nodes()[0]
+	zzverif.Assert(n0.UUID() == "a58be63b-907d-4a1a-856b-0bb5579d7507" && len(n0.Exits()) == 2 &&
+		n0.Exits()[0].UUID() == "d7a36118-0a38-4b35-a7e4-ae89042f0d3c" && n0.Exits()[0].DestinationUUID() == "baaf9085-1198-4b41-9a1c-cc51c6dbec99" && n0.Exits()[1].DestinationUUID() == "",
+		"the loaded flow's first node lost an exit or a destination")
+	zzverif.Assert(f.Nodes()[1].Exits()[0].DestinationUUID() == flows.NodeUUID("a58be63b-907d-4a1a-856b-0bb5579d7507"), "the loaded flow lost the connection back to its first node")
+	zzverif.Assert(len(n0.Actions()) == 2 && n0.Router() != nil && n0.Router().Wait() != nil, "the loaded flow's first node lost an action, its router or its wait")
+}
+
+// verifLoadsDefinition: the 13.x definition of VerifC16_Loads at source version 13.<from>.
+func verifLoadsDefinition(from int) string {
 	versions := []string{"13.0.0", "13.1.0", "13.2.0", "13.3.0", "13.4.0", "13.5.0"}
 	templating := ""
 	switch {
@@ -58,13 +72,5 @@ func VerifC16_Loads() {
 	     "default_category_uuid": "78ae8f05-f92e-43b2-a886-406eaea1b8e0"},
 	   "exits": [{"uuid": "d7a36118-0a38-4b35-a7e4-ae89042f0d3c", "destination_uuid": "baaf9085-1198-4b41-9a1c-cc51c6dbec99"}, {"uuid": "744b1082-4d95-40d0-839a-89fc1bb99d30", "destination_uuid": null}]},
 	  {"uuid": "baaf9085-1198-4b41-9a1c-cc51c6dbec99", "actions": [], "exits": [{"uuid": "37d8813f-1402-4ad2-9cc2-e9054a96525b", "destination_uuid": "a58be63b-907d-4a1a-856b-0bb5579d7507"}]}]}`
-	f, err := ReadFlow([]byte(def), nil)
-	zzverif.Assert(err == nil, "a migrated 13.x definition does not load at the current version")
-	zzverif.Assert(f.UUID() == "8f6f4e8e-5d0a-4a9e-9c3a-3c1c6f1a2b3c" && len(f.Nodes()) == 2, "the loaded flow lost its UUID or a node")
-	n0 := f.Nodes()[0]
-	zzverif.Assert(n0.UUID() == "a58be63b-907d-4a1a-856b-0bb5579d7507" && len(n0.Exits()) == 2 &&
-		n0.Exits()[0].UUID() == "d7a36118-0a38-4b35-a7e4-ae89042f0d3c" && n0.Exits()[0].DestinationUUID() == "baaf9085-1198-4b41-9a1c-cc51c6dbec99" && n0.Exits()[1].DestinationUUID() == "",
-		"the loaded flow's first node lost an exit or a destination")
-	zzverif.Assert(f.Nodes()[1].Exits()[0].DestinationUUID() == flows.NodeUUID("a58be63b-907d-4a1a-856b-0bb5579d7507"), "the loaded flow lost the connection back to its first node")
-	zzverif.Assert(len(n0.Actions()) == 2 && n0.Router() != nil && n0.Router().Wait() != nil, "the loaded flow's first node lost an action, its router or its wait")
+	return def
 }
